@@ -107,6 +107,9 @@ def run(pid, tier):
             ccs = [r["iso3"] for r in csv.DictReader(fh)]
         names = sorted(P)
         real += [(cc, names[(i + C.seed()) % len(names)]) for i, cc in enumerate(ccs[::2])]
+    V = presets.variations(P)
+    P = dict(P, **V)
+    real += [("USA", "nw_methane_scp"), ("IND", "nw_cellulosic_sugar")]
     for k, (cc, p) in enumerate(real):
         o = dict(P[p])
         if cc == "WOR":
